@@ -1243,7 +1243,10 @@ class TypeBlocks(ContainerOperand):
                     dtype = get_col_dtype(iloc)
                     if pos == 0:
                         dtype_last = dtype
-                    elif dtype != dtype_last:
+                    elif (dtype is not dtype_last
+                            if (dtype is None or dtype_last is None)
+                            else dtype != dtype_last):
+                        # NOTE: None (no change) must not be compared by value: np.dtype(float) == None is True
                         # this dtype is different, so need to cast all up to (but not including) this one
                         if dtype_last is not None:
                             yield b[NULL_SLICE, slice(group_start, pos)].astype(dtype_last)
